@@ -268,11 +268,14 @@ def hutchens1_unit():
 
 def units(tier):
     return [('rod1d/' + bc, {'kind': 'rod', 'bc': bc}) for bc in H.BCS] + [('sandwich/' + n_, {'kind': 'sw', 'sname': n_}) for n_ in ('PlanarSandwich', 'PlanarSandwichHot', 'PlanarSandwichHalf')] + \
-        [('rectangle', {'kind': 'rect'}), ('hutchens1', {'kind': 'h1'})]
+        [('rectangle', {'kind': 'rect'}), ('hutchens1', {'kind': 'h1'}), ('cylsandwich', {'kind': 'cyl'})]
 
 
 def run_unit(name, kind, bc=None, **kw):
     if kind == 'rod': return rod_unit(bc)
     if kind == 'sw': return sandwich_unit(kw['sname'])
     if kind == 'rect': return rect_unit()
+    if kind == 'cyl':
+        from props import cylsandwich_kit
+        return cylsandwich_kit.unit()
     return hutchens1_unit()
